@@ -223,6 +223,19 @@ class LArr(Value):
         raise Unsupported('iteration over an array (lin facet)')
 
 
+class LTree(Value):
+    """a pytree of UNKNOWN structure (what an arbitrary operator returns) all of whose leaves carry the tag `tag`"""
+
+    def __init__(self, tag=LIN, what='pytree'):
+        self.tag, self.what = tag, what
+
+    def __repr__(self):
+        return f'<{self.tag} pytree {self.what}>'
+
+    def generic_leaf(self):
+        return LArr(self.tag, what=f'leaf of {self.what}')
+
+
 class AtV(Value):
     def __init__(self, arr):
         self.arr = arr
@@ -254,7 +267,7 @@ class AtV(Value):
 
 def tag_of(v):
     """tag of one value used as an array operand"""
-    if isinstance(v, LArr):
+    if isinstance(v, (LArr, LTree)):
         return v.tag
     if v is None:
         return CONST
@@ -358,10 +371,14 @@ def join_all(vs):
 
 def like(interp, tree, tag=LIN, what='fresh'):
     """a tree of fresh arrays tagged `tag` with the tree structure of `tree` (leaves: arrays or ShapeDtypeStructs)"""
+    if isinstance(tree, LTree):
+        return LTree(tag, what)
     return PT.tree_map(interp, PyFunc(lambda interp, leaf: LArr(tag, what=what), 'fresh'), tree)
 
 
 def leaves_of(interp, tree):
+    if isinstance(tree, LTree):
+        return [tree.generic_leaf()]
     return PT.flatten(interp, tree)[0]
 
 
@@ -394,6 +411,26 @@ JUXTAPOSE = ['concatenate', 'stack', 'hstack', 'vstack']
 
 def install(T: Theory):
     PT.install(T)
+    pt_map, pt_leaves = T.externals['jax.tree.map'], T.externals['jax.tree.leaves']
+
+    @T.ext('jax.tree.map', 'jax.tree_util.tree_map')
+    def _map(interp, f, tree, *rest, is_leaf=None):
+        if any(isinstance(t, LTree) for t in (tree,) + rest):
+            # leaf by leaf on trees of unknown structure: f on one generic leaf of each (a concrete tree contributes the
+            # join of its leaves' tags)
+            args = [t.generic_leaf() if isinstance(t, LTree) else LArr(tree_tag(interp, t), what='generic leaf')
+                    for t in (tree,) + rest]
+            r = interp.call(f, args, {})
+            return LTree(tag_of(r), what='tree.map result')
+        return pt_map(interp, f, tree, *rest, is_leaf=is_leaf)
+
+    @T.ext('jax.tree.leaves', 'jax.tree_util.tree_leaves')
+    def _leaves(interp, tree, is_leaf=None):
+        if isinstance(tree, B.PyList) and tree.seq is not None and not tree.seq.is_concrete_len():
+            return tree         # a flat list of a symbolic number of operators: its own leaf list
+        if isinstance(tree, LTree):
+            raise Unsupported('tree.leaves of a pytree of unknown structure')
+        return pt_leaves(interp, tree, is_leaf=is_leaf)
 
     def first_arrays(a):
         return a[0] if a else None
@@ -578,6 +615,8 @@ def install(T: Theory):
         return z3.ToReal(fresh_int('log2'))
 
     def isinst(interp, v, c):
+        if isinstance(v, LTree):
+            return False
         if isinstance(v, (LArr, STT.SDS, STT.DType, PT.TreeDefV, STT.SolutionV)):
             if isinstance(c, Ext):
                 return isinstance(v, LArr) and c.path in ('jax.Array', 'jax.numpy.ndarray', 'jaxtyping.Array')
